@@ -65,7 +65,7 @@ End Impls.
 (* ---------- QuadExtension<B> ---------- *)
 Section Quad.
   Context {F : Type} (O : FOps F) (I : Ext2Impl F).
-  Definition Q : Type := (F * F)%type.
+  Local Notation Q := (F * F)%type.
 
   Definition q_zero : Q := (fzero O, fzero O).
   Definition q_one : Q := (fone O, fzero O).
@@ -123,7 +123,7 @@ End Quad.
 (* ---------- CubeExtension<B> ---------- *)
 Section Cube.
   Context {F : Type} (O : FOps F) (I : Ext3Impl F).
-  Definition C : Type := (F * F * F)%type.
+  Local Notation C := (F * F * F)%type.
   Definition c0 (a : C) : F := fst (fst a).
   Definition c1 (a : C) : F := snd (fst a).
   Definition c2 (a : C) : F := snd a.
